@@ -118,6 +118,13 @@ def _module_mutant_one(args):
     try:
         with extract.patched_source(relpath, old, new):
             obls = mod.lemmas()
+            # functions under contract that live in the patched file are re-verified from the patched text as well
+            for e in getattr(mod, 'FUNCTIONS', []):
+                if e[0] != relpath: continue
+                c = REG.get(e[0], e[1])
+                if expect not in '%s/%s::%s/' % (prop, os.path.basename(e[0]), e[1]) and expect.split('/')[0] not in e[1]: continue
+                ex = symexec.verify(prop, c, track_raises=(c.on_raise is not None), fi=extract.get_func(e[0], e[1]))
+                obls = obls + ex.obls
             cand = [o for o in obls if expect in o.name]
             for o in cand:
                 if o.result is None: solve.discharge(o)
